@@ -16,6 +16,11 @@ def closure_of(crate, e):
     the same crate passed where a closure is expected is returned as well (second component: the `fn` node)"""
     for sub in walk(e):
         if sub[0] == 'agg' and sub[1].startswith('closure:'):
+            # remember which construction site the caller is looking at: a helper inlined into several functions
+            # leaves one copy of its closure aggregates in each, and captures must resolve in *that* function
+            if not hasattr(crate, '_last_agg'):
+                crate._last_agg = {}
+            crate._last_agg[sub[1][len('closure:'):]] = sub
             return crate.fns.get(sub[1][len('closure:'):]), sub
     for sub in walk(e):
         if sub[0] == 'fn' and sub[1] in crate.fns:
@@ -142,13 +147,19 @@ def parent_agg(crate, cf):
     pname = cf.name.rsplit('::{closure#', 1)[0]
     parent = crate.fns.get(pname)
     cands = ([parent] if parent is not None else []) + [g for g in crate.fns.values() if g is not parent]
+    last = getattr(crate, '_last_agg', {}).get(cf.name)
+    first = None
     for g in cands:
         for bi, si, st in g.assigns():
             rv = st['rv']
             if rv['r'] == 'agg' and rv['kind'].get('k') == 'closure' and rv['kind']['path'] == cf.name:
-                return g, g.rvalue_expr(rv, bi)
-        if g is parent and parent is not None and not getattr(crate, '_has_inlined', True):
-            break
+                e = g.rvalue_expr(rv, bi)
+                if last is None or e == last:
+                    return g, e
+                if first is None:
+                    first = (g, e)
+    if first is not None:
+        return first
     return parent, None
 
 
@@ -259,8 +270,25 @@ def string_consts(fn, include_promoted=True):
     return out
 
 
-def local_uses(fn, l):
-    """places where local l is read: (block, kind, detail)"""
+def local_uses(fn, l, _seen=None):
+    """places where local l is read: (block, kind, detail); a plain move / copy of the whole local into another
+    local (`x = move l`, as left behind by an inlined helper's return) is followed to that local's uses"""
+    seen = _seen if _seen is not None else set()
+    if l in seen:
+        return []
+    seen.add(l)
+    out = []
+    for u in _local_uses1(fn, l):
+        bi, kind, st = u
+        if kind == 'stmt' and not st['pl']['p'] and st['rv']['r'] == 'use' and st['rv']['a'].get('o') in ('copy', 'move') and not st['rv']['a']['pl']['p'] \
+                and st['pl']['l'] != 0 and not fn.local_name(st['pl']['l']):
+            out.extend(local_uses(fn, st['pl']['l'], seen))
+        else:
+            out.append(u)
+    return out
+
+
+def _local_uses1(fn, l):
     uses = []
     for bi in sorted(fn.reach):
         b = fn.blocks[bi]
@@ -414,3 +442,82 @@ def len_lower_bound(fn, bi):
                 lbs[coll] = v + 1
                 changed = True
     return lbs
+
+
+# ---- per-player pairing of two expressions (zip / enumerate+index / array of pairs / constant indices)
+def _plain_iter_of(e):
+    """field name F when e is iter/iter_mut/into_iter (any nesting, refs and unsizing casts ignored) over `.F`"""
+    x = e
+    while True:
+        x = strip_refs(x)
+        if x[0] == 'cast':
+            x = x[1]
+            continue
+        if x[0] == 'call' and short(x[1]) in ('iter', 'iter_mut', 'into_iter') and len(x[2]) == 1:
+            x = x[2][0]
+            continue
+        break
+    return x[2] if x[0] == 'field' else None
+
+
+def _mentions_field(e, name):
+    return find_sub(e, lambda s: s[0] == 'field' and s[2] == name) is not None
+
+
+def same_player(a0, a1, f0, f1):
+    """do a0 (derived from the per-player array field f0) and a1 (from f1) belong to the same player?
+    True / False on a recognised pairing, None when the pairing is not recognised.  Returns (verdict, detail)."""
+    t0, t1 = tags(a0), tags(a1)
+    nexts0 = [s for s in walk(a0) if s[0] == 'call' and short(s[1]) == 'next']
+    nexts1 = [s for s in walk(a1) if s[0] == 'call' and short(s[1]) == 'next']
+    common = [n for n in nexts0 if n in nexts1]
+    if not common:
+        if len(t0) == 1 and len(t1) == 1 and _mentions_field(a0, f0) and _mentions_field(a1, f1):
+            return t0 == t1, 'constant indices %s / %s' % (sorted(t0), sorted(t1))
+        return None, 'no common iteration and no constant indices'
+    for n in common:
+        item = ('field', ('downcast', n, 'Some'), '0')
+        it = n[2][0]
+        while True:
+            it = strip_refs(it)
+            if it[0] == 'call' and short(it[1]) == 'into_iter' and len(it[2]) == 1:
+                it = it[2][0]
+                continue
+            break
+
+        def via(e, k):
+            return find_sub(e, lambda s: s[0] == 'field' and s[2] == k and s[1] == item) is not None
+        if is_call(it, 'zip') and len(it[2]) == 2:
+            sides = [_plain_iter_of(it[2][0]), _plain_iter_of(it[2][1])]
+            if None in sides:
+                return None, 'zip of something else than plain iterations: %s' % (sides,)
+            if sorted(sides) != sorted([f0, f1]):
+                return False, 'zip pairs %s, expected %s with %s' % (sides, f0, f1)
+            k0, k1 = str(sides.index(f0)), str(sides.index(f1))
+            ok = via(a0, k0) and via(a1, k1)
+            return (True if ok else None), 'zip(%s, %s): %s from item.%s, %s from item.%s: %s' % (sides[0], sides[1], f0, k0, f1, k1, ok)
+        if is_call(it, 'enumerate') and len(it[2]) == 1:
+            over = _plain_iter_of(it[2][0])
+            if over not in (f0, f1):
+                return None, 'enumerate over %s' % (over,)
+            other, ao, av = (f1, a1, a0) if over == f0 else (f0, a0, a1)
+            idx = ('field', item, '0')
+            by_index = find_sub(ao, lambda s: s[0] == 'index' and strip_refs(s[1])[0] == 'field' and strip_refs(s[1])[2] == other and strip_refs(s[2]) == idx) is not None
+            ok = via(av, '1') and by_index
+            return (True if ok else None), 'enumerate(%s): value from item.1, %s[item.0]: %s' % (over, other, ok)
+        if it[0] == 'agg' and it[1] == 'array' and it[2] and all(x[0] == 'agg' and x[1] == 'tuple' and len(x[2]) == 2 for x in it[2]):
+            pairs = []
+            for x in it[2]:
+                c0 = [c for c in x[2] if _mentions_field(c, f0)]
+                c1 = [c for c in x[2] if _mentions_field(c, f1)]
+                if len(c0) != 1 or len(c1) != 1 or c0[0] is c1[0]:
+                    return None, 'array of pairs with other components'
+                pairs.append((tags(c0[0]), tags(c1[0]), x[2].index(c0[0]), x[2].index(c1[0])))
+            if any(len(p[0]) != 1 or len(p[1]) != 1 for p in pairs):
+                return None, 'array of pairs without constant indices'
+            if any(p[0] != p[1] for p in pairs):
+                return False, 'a pair combines %s of one player with %s of the other: %s' % (f0, f1, [(sorted(p[0]), sorted(p[1])) for p in pairs])
+            k0, k1 = str(pairs[0][2]), str(pairs[0][3])
+            ok = all(str(p[2]) == k0 and str(p[3]) == k1 for p in pairs) and via(a0, k0) and via(a1, k1)
+            return (True if ok else None), 'array of (player p %s, player p %s) pairs: %s' % (f1, f0, ok)
+    return None, 'iteration shape not recognised'
